@@ -8,7 +8,7 @@ import ast
 
 from sa import rx
 from sa.model import AnalysisError, walk_no_nested, norm, call_name, stmt_of
-from sa.util import self_calls, const_value, bound_arg, contains
+from sa.util import self_calls, const_value, bound_arg, contains, fact_atom, cmp_parts
 from sa.consteval import TOP
 from .roles import ClientRoles, regex_flags
 from ref import ms_spec
@@ -191,6 +191,29 @@ def decoder_rules(ctx, R, skip_d3=False):
     else:
         ctx.violation("D2", lst, "name-not-unescaped", "the captured quoted name is decoded without removing the escaping backslashes", node=ncall,
                       witness='the server lists "a\\"b"; the client reports a\\"b (or a\\)')
+
+    # names that are NOT quoted strings (a literal's payload arrives as a bare line) carry no escaping: nothing may be removed from them
+    cfgl = ctx.cfg(lst)
+
+    def unmatched(fc):
+        e, pol = fact_atom(fc)
+        cp = cmp_parts(e)
+        if cp and isinstance(cp[0], ast.Name) and cp[0].id == mvar and isinstance(cp[2], ast.Constant) and cp[2].value is None:
+            return (cp[1] == "Is" and pol is True) or (cp[1] == "IsNot" and pol is False)
+        return isinstance(e, ast.Name) and e.id == mvar and pol is False
+    raw_bad = None
+    for c in walk_no_nested(lst.node):
+        if isinstance(c, ast.Call) and call_name(c) in ("sub", "replace", "translate") and any(
+                isinstance(n, ast.Name) and n.id in tv for n in ast.walk(c)):
+            nodes = cfgl.node_containing(c)
+            if nodes and all(cfgl.guarded(x, unmatched) for x in nodes):
+                raw_bad = raw_bad or c
+    if raw_bad is not None:
+        ctx.violation("D2", lst, "raw-name-unescaped", "a name that is not a quoted string (literal payload) is rewritten by %s: backslashes that "
+                      "belong to the name are removed" % norm(raw_bad)[:60], node=raw_bad,
+                      witness='the server sends the name a\\b as a literal {3}; the client lists it as ab')
+    else:
+        ctx.holds("D2", "names that did not match the quoted pattern are decoded without unescaping")
 
     # ---- D5 -----------------------------------------------------------------------
     ctx.rule("D5", "ACTIVE marker recognised only in the group after the name, anchored")
